@@ -167,8 +167,9 @@ def showOpt : Option Nat → String
   | some n => toString n
   | none => "-"
 
+/-- text 0 stands for an empty field body (a `Tag` without text: nothing to read back from the page) -/
 def showDesc (d : Desc) : String :=
-  toString d.name ++ "/" ++ showOpt d.body ++ "/" ++ showOpt d.type
+  toString d.name ++ "/" ++ (if d.body == some 0 then "-" else showOpt d.body) ++ "/" ++ showOpt d.type
 
 def showReport (r : ReportKind × Nat) : String :=
   (match r.1 with | .duplicate => "dup" | .notFound => "notfound" | .asKeyword => "askw") ++ ":" ++ toString r.2
